@@ -196,6 +196,7 @@ TZ_OFFSET_MIN = None
 # When set, timestamps are instances of a trivial datetime SUBCLASS (what data frames hand over: pandas.Timestamp
 # is one); they are datetimes in every respect.
 STAMP_SUBCLASS = False
+FOLD_ONE = False
 
 
 class Stamp(datetime):
@@ -210,6 +211,8 @@ def stamp(seconds):
         t = t.replace(tzinfo=timezone(timedelta(minutes=TZ_OFFSET_MIN)))
     if STAMP_SUBCLASS:
         t = Stamp(t.year, t.month, t.day, t.hour, t.minute, t.second, tzinfo=t.tzinfo)
+    if FOLD_ONE and (seconds // 60) % 3 == 0:
+        t = t.replace(fold=1)      # PEP 495 flag: means nothing for a naive wall-clock stamp (equal, same hash)
     return t
 
 
@@ -234,7 +237,7 @@ def mk_list(row, ts_first=False):
 
 ENCODINGS = ["candle", "dict", "list", "candles", "dicts", "lists"]
 # further equivalent encodings of the same candle data that the library documents
-ENCODINGS_EXTRA = ["list_tsfirst", "lists_tsfirst", "dict_caps", "dicts_caps", "dict_iso", "dicts_iso"]
+ENCODINGS_EXTRA = ["list_tsfirst", "lists_tsfirst", "dict_caps", "dicts_caps", "dict_iso", "dicts_iso", "lists_mixed"]
 _SINGLE = {"candle": "candles", "dict": "dicts", "list": "lists", "list_tsfirst": "lists_tsfirst",
            "dict_caps": "dicts_caps", "dict_iso": "dicts_iso"}
 
@@ -267,6 +270,8 @@ def encode(rows, enc):
     many = {
         "candles": mk_candle, "dicts": mk_dict, "lists": mk_list,
         "lists_tsfirst": lambda r: mk_list(r, True), "dicts_caps": _mk_dict_caps, "dicts_iso": _mk_dict_iso,
+        # both documented column layouts inside ONE chunk (timestamp first / timestamp last, by row)
+        "lists_mixed": lambda r: mk_list(r, (r[0] // 60) % 2 == 0),
     }
     if enc in many:
         return [many[enc](r) for r in rows]
